@@ -21,6 +21,8 @@ var progress atomic.Int64
 func TestMain(m *testing.M) {
 	run = vk.Start("C11", "exploration")
 	run.Rule("event sequences over {Up,Down,Open,Close,restart-timer expiry, RCR acceptable/nak-able/rejectable/mixed, RCA/RCN/RCJ carrying each of: the identifier of the automaton's latest Configure-Request (cur), of an older Configure-Request (old), of the latest packet it originated that is not a Configure-Request - Code-Reject, Protocol-Reject, Echo-Request, Terminate-Request - (nc), an identifier it never used (new), RCA cur with altered options, RTR, RTA, unimplemented code (LCP answers Code-Reject), peer Code-Reject critical/other, and for LCP: peer Protocol-Reject LCP/other, echo 0/3/4/8 bytes, Discard, SendProtocolReject by the server, SendEchoRequest, one keep-alive ticker tick (SessionKeepAlive in virtual time); and reply/request/terminate packets delivered while the restart timer fires (handler held inside the automaton's lock across the timer instant)} against the real LCP, IPCP and IPv6CP automata in virtual time: breadth-first with fingerprint (state, monitor booleans, restart counter, timer, identifier situation: older-request id exists, non-Configure packet sent before/after the latest request) to a fixed point or the depth bound, option contents seeded-random, plus seeded random walks with partial time advances; every sequence ends with a silent-peer run. All identifiers and option lists used for peer replies are taken from the packets the automaton handed to the send callback. non-trivial = distinct sequence in which the automaton sent a Configure-Request and a delivered packet moved it to another state (the negotiation code was reached), or distinct (automaton, state, reply kind, identifier class) in which a reply with a non-matching identifier reached the identifier check. Request content: besides the acceptable/nak-able/rejectable/mixed lists, peer Configure-Requests with one option alone (RCRone), a repeated option with the same value (RCRdup), a repeated option type with conflicting values (RCRdupx), no options (RCRempty) - these four also in the breadth-first alphabet -, unknown/unsupported/wrong-length options between negotiable ones (RCRunk), all negotiable options in every order (RCRperm), lists filling the 1488 option bytes of a PPPoE-sized packet (RCRmax) and everything mixed (RCRall) in random walks; TestRequestContent puts each automaton into each of the ten RFC 1661 states and delivers a differential sandwich (every distinct option of a composite request alone, the composite request, the same options alone again), also drawn inside random walks. non-trivial for these = distinct (automaton, content class computed from the request bytes, state, answer code) that reached the option processing, or distinct (automaton, state, option) judged by the differential clause")
+	run.Rule("identifier classes of the other peer packets (idclass_test.go): Terminate-Ack, Terminate-Request, Code-Reject critical/other, Protocol-Reject LCP/other, Echo-Reply and Discard-Request carrying the identifier of the automaton's latest Configure-Request (cur), of its latest Terminate-Request (term), of the latest other packet it originated (nc: LCP only, the network control protocols originate nothing else), of an older originated packet (old) or one it never used (new) - TestIdentifierClasses delivers each of the 8 x 5 combinations in each of the ten RFC 1661 states of every automaton behind three prefixes (the shortest one; one after an earlier Configure-Request/Terminate-Request/Terminate-Ack/re-Open exchange; that plus a retransmission and, for LCP, a Protocol-Reject/Echo-Request/Code-Reject of its own), thorough tier with random tails; RTA@cur/RTA@term are in the breadth-first alphabet and nine combinations in the random walks; every such packet delivered anywhere (also the plain RTA/RTR/CRJ/PRJ with a random identifier) is classified from the packets the automaton sent. non-trivial = distinct (automaton spec, packet type, identifier class, state) that reached the handler. The differential table compares LCP, IPCP and IPv6CP per (packet type, identifier class, state) on the rows RFC 1661 4.1 shares (RTA, RTR, RXJ-, RXJ+) at the level opened/negotiating/ending")
+	run.Assume("a Terminate-Ack counts as the answer to the outstanding Terminate-Request when it carries the identifier of the latest Terminate-Request and that request was sent after the latest Configure-Request; only then is Closing->Closed / Stopping->Stopped demanded, any other Terminate-Ack there may end the termination or be ignored (RFC 1661 5.5 'the Identifier MUST match' read either way)")
 	run.Assume("the restart timer is armed when a Configure-/Terminate-Request is handed to the send callback (used only to aim the timer-vs-packet schedules, not by any oracle clause)")
 	run.Assume("a Configure-Ack whose identifier matches the latest request counts as the peer's acknowledgement whatever its option bytes (the anchor's mechanism: identifier match; RFC 1661 5.2 would also let the automaton discard an Ack whose options differ, so both behaviours are accepted and the altered-options Ack is only counted)")
 	run.Assume("packets the automaton's parser refuses with an error are not events of the property's alphabet and are not generated")
@@ -55,6 +57,25 @@ func TestMain(m *testing.M) {
 	run.Floor("mismatched_reply_in_Ack-Sent", 50)
 	run.Floor("mismatched_reply_in_Ack-Rcvd", 50)
 	run.Floor("matching_reply_delivered", 1000)
+	run.Floor("idclass_packets_delivered", 8000)
+	run.Floor("rta_in_opened_judged", 100)
+	run.Floor("rta_in_opened_with_id_other_than_last_sent", 60)
+	run.Floor("rta_in_opened_with_id_other_than_last_sent_LCP", 15)
+	run.Floor("rta_in_opened_with_id_other_than_last_sent_IPCP", 15)
+	run.Floor("rta_in_opened_with_id_other_than_last_sent_IPV6CP", 10)
+	run.Floor("rta_in_ackrcvd_judged", 50)
+	run.Floor("rta_in_ackrcvd_with_id_other_than_last_sent", 30)
+	run.Floor("rta_matching_outstanding_terminate_request_judged_in_Closing", 20)
+	run.Floor("rta_not_matching_an_outstanding_terminate_request_in_closing_or_stopping", 20)
+	run.Floor("idclass_RTA_term", 50)
+	run.Floor("idclass_RTA_old", 50)
+	run.Floor("idclass_RTA_new", 50)
+	run.Floor("idclass_RTA_cur", 50)
+	run.Floor("idclass_RTA_nc", 10)
+	run.Floor("idclass_RTR_term", 50)
+	run.Floor("idclass_CRJcrit_old", 50)
+	run.Floor("idclass_EREP_nc", 10)
+	run.Floor("differential_table_cells_compared", 100)
 	stop := make(chan struct{})
 	go watchdog(stop)
 	code := m.Run()
@@ -95,6 +116,7 @@ type result struct {
 	lastRec  *evRec
 	allNA    bool
 	panicked int
+	recs     []*evRec
 }
 
 // execSeq runs one event sequence against a fresh automaton inside a virtual-time bubble.
@@ -133,6 +155,7 @@ func execSeq(t *testing.T, sp *spec, seq []ev, judgeFrom int) (res result) {
 		}
 		c.judgeSilence()
 		res.trace = c.trace()
+		res.recs = c.recs
 		res.panicked = c.panics
 		c.m.Down()
 		synctest.Wait()
